@@ -260,27 +260,6 @@ func CloneNode(node ast.Node) ast.Node {
 		}
 		return ast.NewStatements(ClonePosition(n.Position), nodes)
 
-	case *ast.StructType:
-		var fields []*ast.Field
-		if n.Fields != nil {
-			fields = make([]*ast.Field, len(n.Fields))
-			for i, field := range n.Fields {
-				var idents []*ast.Identifier
-				if field.Idents != nil {
-					idents = make([]*ast.Identifier, len(field.Idents))
-					for j, ident := range field.Idents {
-						idents[j] = CloneExpression(ident).(*ast.Identifier)
-					}
-				}
-				var typ ast.Expression
-				if field.Type != nil {
-					typ = CloneExpression(field.Type)
-				}
-				fields[i] = ast.NewField(idents, typ, field.Tag)
-			}
-		}
-		return ast.NewStructType(ClonePosition(n.Position), fields)
-
 	case *ast.Switch:
 		var init ast.Node
 		if n.Init != nil {
@@ -475,6 +454,27 @@ func CloneExpression(expr ast.Expression) ast.Expression {
 	case *ast.Slicing:
 		expr2 = ast.NewSlicing(ClonePosition(e.Position), CloneExpression(e.Expr), CloneExpression(e.Low),
 			CloneExpression(e.High), CloneExpression(e.Max), e.IsFull)
+
+	case *ast.StructType:
+		var fields []*ast.Field
+		if e.Fields != nil {
+			fields = make([]*ast.Field, len(e.Fields))
+			for i, field := range e.Fields {
+				var idents []*ast.Identifier
+				if field.Idents != nil {
+					idents = make([]*ast.Identifier, len(field.Idents))
+					for j, ident := range field.Idents {
+						idents[j] = CloneExpression(ident).(*ast.Identifier)
+					}
+				}
+				var typ ast.Expression
+				if field.Type != nil {
+					typ = CloneExpression(field.Type)
+				}
+				fields[i] = ast.NewField(idents, typ, field.Tag)
+			}
+		}
+		expr2 = ast.NewStructType(ClonePosition(e.Pos()), fields)
 
 	case *ast.TypeAssertion:
 		expr2 = ast.NewTypeAssertion(ClonePosition(e.Position), CloneExpression(e.Expr), CloneExpression(e.Type))
